@@ -255,7 +255,7 @@ def stall_side(plan, sim):
         cfg = dict(plan["cfg"])
         if cfg["entry"] in ("flat_file",):
             cfg["entry"] = "flat_frames"
-        data = nodes.serialize(cfg, plan["ops"], None)
+        data = nodes.serialize_input(cfg, plan["ops"], None)
     else:
         data, _, _, _ = c04.build_stream(plan, sim)
     bounds = wire.split_delimited(data)
